@@ -25,7 +25,13 @@ ASSUME = ['known finding F5 at its DMRG call site: when a local Lanczos iteratio
 
 def run_dmrg(kind, H, psi, sweeps, iters, tol_split):
     if kind == 'single':
+        if iters == 25:
+            return ptn.calculate_ground_state_local_singlesite(H, psi, sweeps)     # documented default numiter_lanczos = 25
         return ptn.calculate_ground_state_local_singlesite(H, psi, sweeps, numiter_lanczos=iters)
+    if iters == 25 and tol_split == 0:
+        return ptn.calculate_ground_state_local_twosite(H, psi, sweeps)            # documented defaults numiter_lanczos = 25, tol_split = 0
+    if tol_split == 0 and iters % 2:
+        return ptn.calculate_ground_state_local_twosite(H, psi, sweeps, numiter_lanczos=iters)
     return ptn.calculate_ground_state_local_twosite(H, psi, sweeps, numiter_lanczos=iters, tol_split=tol_split)
 
 
@@ -140,7 +146,7 @@ def gen_dmrg(draw, tier):
     c = draw(ham_and_state(Lmin=2, Lmax=5, dense_cap=128 if tier == 'quick' else 256, Dmax=4))
     c['algorithm'] = draw(st.sampled_from(['single', 'two']))
     c['sweeps'] = draw(st.sampled_from([2, 1, 3, 4]))
-    c['iters'] = draw(st.sampled_from([4, 2, 3, 5, 8, 40]))
+    c['iters'] = draw(st.sampled_from([4, 2, 3, 5, 8, 40, 25]))
     c['tol_split'] = draw(st.sampled_from([0, 0, 0, 1e-8, 1e-2]))
     c['second_call'] = draw(st.booleans())
     c['edit_between'] = draw(st.sampled_from([False, True, 'gauge']))
